@@ -265,7 +265,7 @@ def choose_op(rng, snap):
             ids.append(rng.choice(ids))
         rng.shuffle(ids)
     elif mode < 0.80:
-        pool = pids + unknown
+        pool = pids + good + good + unknown
         ids = [rng.choice(pool) for _ in range(rng.randint(1, 5))]
     elif mode < 0.91:
         ids = [rng.choice(bad)] if bad else [rng.choice(unknown)]
@@ -834,15 +834,9 @@ def run(ctx, res):
             if len(case["val_bits"]) == 1 and sum(case["sel"]) != 1 and not out.startswith("err:"):
                 res.count("setobs.broadcast")
             if len(case["sel"]) == 0 and len(case["raw"]["pnames"]) > 0:
-                # numpy accepts a zero-length boolean index on a non-empty array (selects nothing); the model
-                # (Retro.setObserved) answers IndexError for every length mismatch -- judged by the oracle only
-                skipped += 1
-                continue
+                # numpy accepts a zero-length boolean index on a non-empty array (selects nothing); so does the model
+                res.count("setobs.zero-length-selection")
             tie.add("C12:setobs", setobs_line(case), out, case)
-        if skipped:
-            res.count("setobs.zero-length-selection-not-sent-to-model", skipped)
-            res.notes.append("set_observed with a zero-length boolean selection on a non-empty screen is a no-op in numpy 1.26 "
-                             "(IndexError in the model); %d such cases were judged by the oracle only" % skipped)
         tie.flush()
     finally:
         shutil.rmtree(tmp, ignore_errors=True)
